@@ -48,23 +48,56 @@ def run(ctx, chk):
     for kind, pre in (("raw", RAW), ("compressed", CMP)):
         fi = O.body(pre + "forced_import_with")
         im = O.body(pre + "import_with")
-        imp = M(re.escape(pre + "import_with"))
-        sites = O.need_sites(fi, imp, 2)
-        # plain path: adds applied inside import_with before ReadWriteBaseVec::import
-        base = O.need_sites(im, M(r"vecdb::base::read_write::ReadWriteBaseVec::<I, T>::import"), 1)
-        plain = add_count(ctx, im, im.blocks[base[0]]["term"]["args"][0])
+        base_import = "vecdb::base::read_write::ReadWriteBaseVec::<I, T>::import"
+
+        def adds_to_base(fn, depth=0):
+            """`+ VERSION` applications between fn's options parameter and ReadWriteBaseVec::import, summed along the
+            call path through private helpers; None if fn does not reach the base import."""
+            B = P.bodies[fn]
+            direct = O.sites(B, M(re.escape(base_import)))
+            if direct:
+                return max(add_count(ctx, B, B.blocks[x]["term"]["args"][0]) for x in direct)
+            if depth > 4:
+                return None
+            best = None
+            for x, t in B.calls():
+                kind, tg = P.resolve(t["callee"])
+                if kind != "ws":
+                    continue
+                for g in tg:
+                    if g.startswith(pre) and g != fn and base_import in O.reach(g) and t["args"]:
+                        sub = adds_to_base(g, depth + 1)
+                        if sub is not None:
+                            tot = add_count(ctx, B, t["args"][0]) + sub
+                            best = tot if best is None else max(best, tot)
+            return best
+        plain = adds_to_base(im.id)
+        if plain is None:
+            raise AnchorMissing("%s import_with does not reach ReadWriteBaseVec::import" % kind)
+        # every call in forced_import_with that leads to the base import, with the adds on its whole path
         counts = []
-        for b in sites:
-            counts.append(add_count(ctx, fi, fi.blocks[b]["term"]["args"][0]))
+        for x, t in fi.calls():
+            kk, tg = P.resolve(t["callee"])
+            if kk != "ws":
+                continue
+            for g in tg:
+                if g.startswith(pre) and g != fi.id and (g == im.id or base_import in O.reach(g)) and t["args"]:
+                    sub = adds_to_base(g)
+                    if sub is not None:
+                        counts.append(add_count(ctx, fi, t["args"][0]) + sub)
+        if len(counts) < 2:
+            raise AnchorMissing("%s forced_import_with: expected the first attempt and the retry (2 import calls), found %d"
+                                % (kind, len(counts)))
         same = len(set(counts)) == 1
-        chk.oblige("F1a %s forced_import_with: every import_with call gets options with the same version (adds before "
-                   "each call: %s)" % (kind, counts), same, key="F1|%s|inconsistent-calls" % kind,
+        chk.oblige("F1a %s forced_import_with: every import attempt presents the same version (`+ VERSION` applications "
+                   "on each path to the header check: %s)" % (kind, counts), same, key="F1|%s|inconsistent-calls" % kind,
                    msg="the first attempt and the retry after a reset must present the same version, or every later "
                        "forced import sees a mismatch and wipes the data again")
-        chk.oblige("F1b %s: forced import presents the same stored version as plain import (extra `+ VERSION` before "
-                   "delegating: %s; plain path adds %d)" % (kind, counts, plain), same and counts[0] == 0,
-                   detail={"adds_before_import_with": counts, "adds_in_import_with": plain},
-                   key="F1|%s|forced-adds-%s" % (kind, max(counts)),
+        extra = max(counts) - plain
+        chk.oblige("F1b %s: forced import presents the same stored version as plain import (paths: forced %s, plain %d)"
+                   % (kind, counts, plain), same and extra == 0,
+                   detail={"adds_on_forced_paths": counts, "adds_on_plain_path": plain},
+                   key="F1|%s|forced-adds-%s" % (kind, extra),
                    msg="forced_import_with adds the layer VERSION and then calls import_with, which adds it again: "
                        "data written through import(v) is discarded by forced_import(v), and vice versa import "
                        "refuses forced-created data")
